@@ -9,6 +9,7 @@ call (receiver, its path, payload with old and new contents), which memoised fac
 step observes) the four derived facts of every node."""
 import contextlib, inspect, time
 from harness.props import symcore_driver as D
+from harness.translators import notify_src
 
 REBINDX, QUERY = 50, 60
 
@@ -17,6 +18,10 @@ META = dict(
     model_run='PG.Model.SymCoreEvents.run',
     runner_name='SymCoreEvents',
     model_targets=['Model/SymCoreEvents.vo'],
+    instance_obligations=['generated_write_sites_invalidate / generated_write_sites_report (Proofs/SymCoreEventsInstance.v, vm_compute on the table of raw write sites of '
+                          'pg.List / pg.Dict regenerated from the current source: each invalidates the content caches and reports its update)',
+                          'generated_invalidate_is_the_model_reset / generated_notify_is_the_model_delivery (the shapes of Symbolic._invalidate_content_cache and '
+                          'Symbolic._notify_field_updates recognised by the fail-closed translator are those SymCoreEvents.reset_of / deliver are written after)'],
     technique='Coq proof over the SymCore forest model extended with a trace of writes and notifications per call (event log, memoised-fact tables) '
               '+ step-level differential correspondence of event logs, cache occupancy and reported facts against pg.Dict/pg.List/pg.Object '
               '+ direct oracles (event contract from before/after diffs; derived facts against a copy rebuilt from JSON)',
@@ -35,7 +40,8 @@ META = dict(
                 'One open finding (event for a reset that changes nothing), exhibited by C09_spurious_refuted.'),
     rule='a case is (forest literal with callback flags, list of (scope stack, operation, observe?)); distinct by canonical text; non-trivial when at least one '
          'step delivers an event to a subscribing ancestor or changes a memoised fact of a node that held it',
-    trusted_base=['extraction: ExtrOcamlBasic only; ocaml/main.ml lexer/printer; cross-checked against vm_compute on a sample',
+    trusted_base=['translator harness/translators/notify_src.py (fail-closed ast reader of base.py / list.py / dict.py; never imports pyglove)',
+                  'extraction: ExtrOcamlBasic only; ocaml/main.ml lexer/printer; cross-checked against vm_compute on a sample',
                   'implementation driver harness/props/symcore_driver.py + the observers of harness/props/c09.py (test classes, callbacks, cache inspection)'],
     assumptions=['histories are finite sequences of the modelled operations; rebind batches generated for the correspondence are prefix-free',
                  'C09_fresh: history_ok -- an opaque leaf identity has one content (where the identity test of sort/reverse says nothing moved, the items are the same list)',
@@ -1273,9 +1279,14 @@ def py_snippet(case):
           'case = tr.parse_line(%r)\no = c09.Oracle9(); out = c09.run_case9(case, o)\nfor h in o.hits: print(h)\n'
           'for n, s in enumerate(out[1]): print(n, c09.op_name(case[2][n][1]), "result", s[0], "events", s[2])\n' % trlib.to_line(case))
 
+GENERATED = {'Gen/NotifySrc.v': notify_src.translate}
+
 def run(ctx):
   from harness.lib import tr as trlib
   t_start = time.time()
+  info = ctx.regen('Gen/NotifySrc.v', notify_src.translate)
+  if info is not None:
+    ctx.extra['write_sites'] = info
   ctx.build()
   t0 = time.time()
   rng = ctx.rng
